@@ -164,6 +164,8 @@ pub unsafe extern "C" fn sendmsg(fd: c_int, msg: *const msghdr, _flags: c_int) -
     let mut a = Att { fd, hdr, has_hdr: true, base: iv1.iov_base as usize, len: iv1.iov_len, ..A0 };
     if m.msg_controllen > 0 {
         let c = m.msg_control as *const libc::cmsghdr;
+        // the kernel copies in the whole control buffer: msg_controllen bytes, padding included
+        let _last: u8 = ptr::read_volatile((c as *const u8).add(m.msg_controllen as usize - 1));
         let n = ((*c).cmsg_len - 16) / 4;
         a.ctl_ok = m.msg_controllen >= 16
             && (*c).cmsg_level == libc::SOL_SOCKET
